@@ -12,6 +12,7 @@
 (* Variant selects the current tree ("code") or a seeded defect (negative controls):               *)
 (*   "unlocked_check" = the tree before fix 35117c3 (stopped flag set and tested without the lock)  *)
 (*   "run_snapshot"   = the tree before fix f6bc026 (Run waits once for the groups it saw)          *)
+(*   "sync_waitgroup" = the tree before fix 0c7154d (Run's Wait on a sync.WaitGroup that is re-used) *)
 (*   "cmp_gt", "wait_current", "wrong_index" = the three Appendix-B mutations                       *)
 (* Approximations: every name has a fixed order (OrdOf); the per-worker flags are keyed by name    *)
 (* (exact for "code", where nothing is registered after the shutdown's snapshot); cleanup and the   *)
@@ -98,8 +99,15 @@ RunSnap == /\ rpc = "snap" /\ lock = "free" /\ rsnap' = wgx /\ rpc' = "wait"
            /\ UNCHANGED <<dvars, avars, rcur, runBad, cvars, panicked>>
 RunPick == /\ rpc = "wait" /\ rcur = 99 /\ rsnap # {} /\ rcur' \in rsnap            \* map iteration order: any
            /\ UNCHANGED <<dvars, avars, rpc, rsnap, runBad, cvars, panicked>>
-RunWaited == /\ rpc = "wait" /\ rcur # 99 /\ wg[rcur] = 0 /\ rsnap' = rsnap \ {rcur} /\ rcur' = 99
-             /\ UNCHANGED <<dvars, avars, rpc, runBad, cvars, panicked>>
+RunWaited == /\ rpc = "wait" /\ rcur # 99 /\ wg[rcur] = 0
+             /\ IF Variant = "sync_waitgroup" THEN rpc' = "woken" /\ UNCHANGED <<rsnap, rcur>>      \* the semaphore was released ...
+                ELSE rsnap' = rsnap \ {rcur} /\ rcur' = 99 /\ UNCHANGED rpc
+             /\ UNCHANGED <<dvars, avars, runBad, cvars, panicked>>
+(* ... and when the waiter runs again, sync.WaitGroup.Wait panics if the counter was incremented meanwhile ("reused before previous Wait has returned") *)
+RunWoken == /\ rpc = "woken"
+            /\ IF wg[rcur] # 0 THEN panicked' = TRUE /\ rpc' = "dead" /\ UNCHANGED <<rsnap, rcur>>
+               ELSE rsnap' = rsnap \ {rcur} /\ rcur' = 99 /\ rpc' = "wait" /\ UNCHANGED panicked
+            /\ UNCHANGED <<dvars, avars, runBad, cvars>>
 RunCheck == /\ rpc = "wait" /\ rcur = 99 /\ rsnap = {}
             /\ IF Variant = "run_snapshot" THEN rpc' = "ret" /\ runBad' = (AliveH # {})
                ELSE /\ lock = "free"                                                     \* GetRunningBackgroundWorkers (RLock)
@@ -166,7 +174,7 @@ Cleanup(n) == /\ phase[n] = "wgdone" /\ lock = "free"
               /\ UNCHANGED <<stopped, running, lock, cancelled, wgx, wg, cleared, avars, rvars, cvars, panicked>>
 
 Next == \/ \E p \in Adders : (\E n \in Names : AddCall(p, n)) \/ AddLocked(p) \/ AddStart(p)
-        \/ StartCall \/ StartLocked \/ RunSnap \/ RunPick \/ RunWaited \/ RunCheck
+        \/ StartCall \/ StartLocked \/ RunSnap \/ RunPick \/ RunWaited \/ RunWoken \/ RunCheck
         \/ \E c \in Callers : CallOnce(c) \/ Unblock(c) \/ SetStopped(c) \/ ChkRun(c) \/ Snapshot(c) \/ Walk(c) \/ WaitPrev(c)
                               \/ WaitLast(c) \/ SetRun(c) \/ Clear(c)
         \/ \E n \in Names : ReturnCancelled(n) \/ ReturnEarly(n) \/ WgDone(n) \/ Cleanup(n)
